@@ -5,6 +5,7 @@ package main
 // and the export -> import round trip, also after transaction histories.
 
 import (
+	"strings"
 	"fmt"
 )
 
@@ -258,6 +259,8 @@ func genGenesis(g *Gen, n int) {
 		}
 		for _, d := range chosenL {
 			g.q("PerMessageBurnLimit", fmt.Sprintf("denom=%x", d))
+			g.q("PerMessageBurnLimit", fmt.Sprintf("denom=%x", strings.ToLower(d)))
+			g.q("PerMessageBurnLimit", fmt.Sprintf("denom=%x", strings.ToUpper(d)))
 		}
 		for _, d := range chosenM {
 			g.q("RemoteTokenMessenger", fmt.Sprintf("domain=%d", d))
